@@ -5,4 +5,6 @@ Emit == Quiescent => PrintT(<<"INPUT", ToJson([pre |-> pair.pre, a |-> pair.A.ki
 \* operations that never touch each other's check-then-act windows: the model must find them race-free
 SafePair == pair.A.kind \in {"addpod", "remove"} \/ pair.B.kind \in {"addpod", "remove"} \/ (pair.A.kind = pair.B.kind /\ pair.A.kind # "addnode")
 SafeReferential == (Quiescent /\ SafePair) => RefOK
+\* usage accounting is exact whenever the referential predicates hold (everything that touches usage runs under the pod lock)
+UsageExact == (Quiescent /\ RefOK) => UsageOK
 =============================================================================
